@@ -33,7 +33,7 @@ def build_dict(cells):
     return L.ModelCompiler().read_and_parse_dict({addr(sh, c, r): v for sh, c, r, k, v in cells})
 
 
-def build_xlsx(cells, names, path):
+def build_xlsx(cells, names, path, scoped=None):
     L = xl.lib()
     sheets = {}
     for sh, c, r, k, v in cells:
@@ -47,9 +47,13 @@ def build_xlsx(cells, names, path):
         else:
             cell = {'ref': ref, 't': 'inlineStr', 'v': str(v)}
         sheets.setdefault(sh, []).append(cell)
+    for sh in ('S1', 'S 2', "O'x"):      # the workbook has its three sheets whether or not anything is stored on them
+        sheets.setdefault(sh, [])
     order = [s for s in ('S1', 'S 2', "O'x") if s in sheets] + [s for s in sheets if s not in ('S1', 'S 2', "O'x")]
     wb = {'sheets': [{'name': s, 'cells': sheets[s]} for s in order],
           'names': [{'name': n, 'ref': ref} for n, ref in names]}
+    if scoped:       # a defined name scoped to one worksheet (localSheetId)
+        wb['names'].append({'name': scoped['name'], 'ref': S.render(scoped['ref']), 'local': order.index(('S1', 'S 2', "O'x")[scoped['owner'] - 1])})
     xlsxwriter_min.write_xlsx(path, wb)
     try:
         return L.ModelCompiler().read_and_parse_archive(path)
@@ -125,9 +129,9 @@ class Worker:
             names = names_of(case)
             target = case['pname'] or addr(*case['probe'])
             paths = []
-            if not names:
+            if not names and case['kind'] != 'empty-sheet':      # (a dict has no way to say that a sheet without cells exists)
                 paths.append(('dict', lambda: build_dict(cells)))
-            paths.append(('xlsx', lambda: build_xlsx(cells, names, os.path.join(self.work, f'c03-{os.getpid()}-{bi}.xlsx'))))
+            paths.append(('xlsx', lambda: build_xlsx(cells, names, os.path.join(self.work, f'c03-{os.getpid()}-{bi}.xlsx'), case.get('scoped'))))
             for pname, build in paths:
                 try:
                     model = build()
